@@ -74,6 +74,29 @@ def run(an: Analysis, rep):
         ok = tg.classes_in(t) == {ROOT} and t[0] == "class"
         rep.add("R14.1", f"{fn.qual}::yield {'.'.join(st[1] for st in a[2] if st[0] == 'a')} is CodeData", ok, w,
                 "yielded value is guarded to be a CodeData" if ok else f"yields {fmt_atom(a)} of type {tg.show(t)} without a CodeData guard")
+    early = [n for n in ast.walk(fn.node) if isinstance(n, (ast.Break, ast.Return)) or (isinstance(n, ast.Continue))]
+    early = [n for n in early if not (isinstance(n, ast.Return) and n is fn.node.body[-1])]
+    rep.add("R14.1", f"{fn.qual}::no early exit", not [n for n in early if not isinstance(n, ast.Continue)], loc(fn.module, early[0]) if early else w,
+            f"`{norm_src(early[0])}` at line {early[0].lineno} leaves the enumeration before every element was looked at: nested code objects behind that point (another kind of "
+            f"unreferenced entry first, or code of a kind the early exit assumed away) are never yielded" if [n for n in early if not isinstance(n, ast.Continue)]
+            else "every loop of the enumeration runs to completion")
+    # every yield is guarded by type tests only (isinstance), not by properties of the object or of its position
+    for y in [n for n in ast.walk(fn.node) if isinstance(n, (ast.Yield, ast.YieldFrom))]:
+        from .encode_model import guards_of, parent_map
+        st = y
+        pm = parent_map(fn.module)
+        while id(st) in pm and not isinstance(st, ast.stmt):
+            st = pm[id(st)]
+        gs = guards_of(fn.module, fn, st)
+        nontype = []
+        for g, pos in gs:
+            parts = g.values if isinstance(g, ast.BoolOp) and isinstance(g.op, ast.And) else [g]
+            for p_ in parts:
+                if not (isinstance(p_, ast.Call) and isinstance(p_.func, ast.Name) and p_.func.id == "isinstance") or not pos:
+                    nontype.append(p_)
+        rep.add("R14.1", f"{fn.qual}::yield at line-independent guard {norm_src(st)[:40]}", not nontype, loc(fn.module, st),
+                f"the yield is also conditional on `{norm_src(nontype[0])}`: some nested code objects of the right type are skipped" if nontype
+                else "the yield is conditional on type tests only")
     if others:
         rep.add("R14.1", f"{fn.qual}::yields only parts of self", False, w, f"yields values not taken from self: {[fmt_atom(a) for a in others][:3]}")
     # R14.2
@@ -92,6 +115,20 @@ def run(an: Analysis, rep):
     rec = fn2.qual in edges and any(isinstance(n, ast.YieldFrom) for n in ast.walk(fn2.node))
     rep.add("R14.2", f"{fn2.qual}::recurses", rec, loc(fn2.module, fn2.node),
             "`yield from child.all_code_data()` for every child" if rec else "does not recurse into the children's all_code_data()")
+    # the recursion into each child is unconditional
+    from .encode_model import guards_of as _gof, parent_map as _pm
+    for y in [n for n in ast.walk(fn2.node) if isinstance(n, ast.YieldFrom)]:
+        st = y
+        pm = _pm(fn2.module)
+        while id(st) in pm and not isinstance(st, ast.stmt):
+            st = pm[id(st)]
+        gs = _gof(fn2.module, fn2, st)
+        rep.add("R14.2", f"{fn2.qual}::recursion is unconditional", not gs, loc(fn2.module, st),
+                f"`{norm_src(st)}` only runs under `{norm_src(gs[0][0])}`: children for which it is false are yielded as leaves and everything nested below them is missed" if gs
+                else "every child is descended into")
+    early2 = [n for n in ast.walk(fn2.node) if isinstance(n, (ast.Break, ast.Return, ast.Continue))]
+    rep.add("R14.2", f"{fn2.qual}::no early exit", not early2, loc(fn2.module, early2[0]) if early2 else loc(fn2.module, fn2.node),
+            f"`{norm_src(early2[0])}` skips part of the enumeration" if early2 else "no break / continue / return in the traversal")
     el = it2.elements(ret2)
     ok = ("src", self_, ()) in el
     rep.add("R14.2", f"{fn2.qual}::result contains self", ok, loc(fn2.module, fn2.node), "abstract result contains self" if ok else "self not in result")
